@@ -5,7 +5,8 @@ constant, lookup by name over model.points, an arrayed converter) registered as 
 scenarios A (no overrides), B (points override), C (constant override).  Operations: run, a
 stepwise session, re-parameterise (constants / points / run specs) through configure_settings +
 reset_scenario_cache, through session settings and through step settings, reset cache, register a
-second manager from the same model object, register another scenario, evaluate the base model.
+second manager from the same model object, register another scenario, register the model twice through
+register_model (default scenario), evaluate the base model.
 
 Oracle after EVERY transition (an observation that is not part of the replayed history): every
 scenario's run equals the independent Euler reference carrying exactly the settings the
@@ -72,6 +73,8 @@ class Ref:
         self.tainted = set()
         self.m2 = False
         self.d = False
+        self.r = False
+        self.e = False
 
 
 SET_CONST = [5.0, 0.5]
@@ -90,7 +93,7 @@ class System:
             ops.append(["run", m, s])
             ops.append(["session", m, s])
             ops.append(["reset_cache", m, s])
-        for (m, s) in [("M1", "A"), ("M1", "B")] + ([("M2", "A2")] if ref.m2 else []):
+        for (m, s) in [("M1", "A"), ("M1", "B")] + ([("M2", "A2")] if ref.m2 else []) + ([("R1", "base")] if ref.r else []) + ([("M1", "E1")] if ref.e else []):
             for v in SET_CONST:
                 ops.append(["set_constant", m, s, v])
             for p in range(len(SET_POINTS)):
@@ -105,6 +108,10 @@ class System:
             ops.append(["register_M2"])
         if not ref.d:
             ops.append(["register_D"])
+        if not ref.r:
+            ops.append(["register_models"])
+        if not ref.e:
+            ops.append(["register_same_dict"])
         ops.append(["eval_base"])
         return ops
 
@@ -167,6 +174,20 @@ class System:
                 ref.sc[("M2", "A2")] = dict(BASE)
                 ref.sc[("M2", "B2")] = dict(BASE, lk=P2)
                 ref.m2 = True
+            elif k == "register_same_dict":
+                # one scenario description (the same dict object) registered under two names
+                d = {"constants": {"k": 2.5}, "points": {"lk": copy.deepcopy(P1)}}
+                b.register_scenarios(scenarios={"E1": d, "E2": d}, scenario_manager="M1")
+                ref.sc[("M1", "E1")] = dict(BASE, k=2.5, lk=P1)
+                ref.sc[("M1", "E2")] = dict(BASE, k=2.5, lk=P1)
+                ref.e = True
+            elif k == "register_models":
+                # the same model registered twice with register_model's default scenario
+                b.register_model(impl.base, scenario_manager="R1")
+                b.register_model(impl.base, scenario_manager="R2")
+                ref.sc[("R1", "base")] = dict(BASE)
+                ref.sc[("R2", "base")] = dict(BASE)
+                ref.r = True
             elif k == "register_D":
                 b.register_scenarios(scenarios={"D": {"constants": {"k": 4.0}, "runspecs": {"stoptime": 2.0}}}, scenario_manager="M1")
                 ref.sc[("M1", "D")] = dict(BASE, k=4.0, stop=2.0)
